@@ -196,7 +196,7 @@ func genC20Mbits(g *G) {
 		flush()
 	}
 	// random longer slices with long zero runs at both ends and in the middle
-	cases := g.Scale(150, 3000)
+	cases := g.Scale(500, 3000)
 	maxR := g.Scale(80, 300)
 	for c := 0; c < cases; c++ {
 		for k := 0; k < 8; k++ {
@@ -296,7 +296,7 @@ func genC20Trunc(g *G) {
 		}
 	}
 	// random valid strings over mixed-width runes, every cut point; some damaged afterwards
-	cases := g.Scale(600, 20000)
+	cases := g.Scale(2500, 20000)
 	for c := 0; c < cases; c++ {
 		k := g.Intn(g.Scale(9, 40))
 		var rs []rune
@@ -502,7 +502,7 @@ func genC20Natcmp(g *G) {
 	g.Case(ops)
 	// single triples from the same small scope (one op per case: these give the smallest witnesses)
 	small := c20StrsUpTo(alpha, 3)
-	for i := g.Scale(400, 4000); i > 0; i-- {
+	for i := g.Scale(1500, 4000); i > 0; i-- {
 		a, b, c := small[g.Intn(len(small))], small[g.Intn(len(small))], small[g.Intn(len(small))]
 		g.Case([]string{"reset", fmt.Sprintf("cn3 %s %s %s", c20Hex(a), c20Hex(b), c20Hex(c))})
 	}
@@ -518,7 +518,7 @@ func genC20Natcmp(g *G) {
 	}
 	// random related triples: digit runs ≤ 18 digits (no int overflow), and a share with longer
 	// runs where only implementation = model is compared (the model wraps like Go's int)
-	cases := g.Scale(800, 30000)
+	cases := g.Scale(3000, 30000)
 	for c := 0; c < cases; c++ {
 		maxRun := 18
 		if g.Chance(1, 10) {
